@@ -44,13 +44,18 @@ func ite[T any](c bool, a, b T) T {
 	}
 	return b
 }
-func vassert(b bool)                {}
-func isSuffix[T any](a, b []T) bool { return true }
-func traceBytes(k int) []byte       { return nil }
-func cbcalls() int                  { return 0 }
-func cbArg[T any](k int) T          { var z T; return z }
-func cbRet(k int) bool              { return true }
-func ncalls() int                   { return 0 }
+func vassert(b bool) {}
+func isSuffix[T any](a, b []T) bool {
+	if len(a) > len(b) {
+		return false
+	}
+	return len(a) == 0 || &a[len(a)-1] == &b[len(b)-1]
+}
+func traceBytes(k int) []byte { return nil }
+func cbcalls() int            { return 0 }
+func cbArg[T any](k int) T    { var z T; return z }
+func cbRet(k int) bool        { return true }
+func ncalls() int             { return 0 }
 
 // ---- big-endian readers (total: out-of-range reads are arbitrary in the logic, 0 at run time) ----
 
@@ -597,4 +602,328 @@ func specXRKind(b ReportBlock) bool {
 	default:
 		return false
 	}
+}
+
+// ---- RFC 3611: extended report blocks. Written from the section 4 layouts as an independent block walker:
+// size, header and field positions of every block kind. The reflection-driven codec in packet_buffer.go is
+// outside the verifier's subset; its contracts are stated with these functions and validated by execution
+// on bounded inputs (see `bounded` in verif_contracts.go). ----
+
+// specXRBlockSize: octets of one report block on the wire, block header included.
+func specXRBlockSize(b ReportBlock) int {
+	switch v := b.(type) {
+	case *LossRLEReportBlock:
+		return 12 + 2*len(v.Chunks)
+	case *DuplicateRLEReportBlock:
+		return 12 + 2*len(v.Chunks)
+	case *PacketReceiptTimesReportBlock:
+		return 12 + 4*len(v.ReceiptTime)
+	case *ReceiverReferenceTimeReportBlock:
+		return 12
+	case *DLRRReportBlock:
+		return 4 + 12*len(v.Reports)
+	case *StatisticsSummaryReportBlock:
+		return 40
+	case *VoIPMetricsReportBlock:
+		return 36
+	case *UnknownReportBlock:
+		return 4 + len(v.Bytes)
+	default:
+		return 0
+	}
+}
+
+// specXRBlocksLen: octets of the first n report blocks.
+func specXRBlocksLen(bs []ReportBlock, n int) int {
+	if n <= 0 {
+		return 0
+	}
+	return specXRBlocksLen(bs, n-1) + specXRBlockSize(bs[n-1])
+}
+
+// specXRHeaderAt: the four octets at buf[off:] are BT | type-specific | block length (RFC 3611 section 3).
+func specXRHeaderAt(buf []byte, off int, h XRHeader) bool {
+	return byteAt(buf, off) == uint8(h.BlockType) && byteAt(buf, off+1) == uint8(h.TypeSpecific) && be16(buf, off+2) == h.BlockLength
+}
+
+func specXRChunksAt(buf []byte, off int, cs []Chunk, n int) bool {
+	if n <= 0 {
+		return true
+	}
+	return specXRChunksAt(buf, off, cs, n-1) && be16(buf, off+2*(n-1)) == uint16(cs[n-1])
+}
+
+func specXRTimesAt(buf []byte, off int, ts []uint32, n int) bool {
+	if n <= 0 {
+		return true
+	}
+	return specXRTimesAt(buf, off, ts, n-1) && be32(buf, off+4*(n-1)) == ts[n-1]
+}
+
+func specXRDLRRAt(buf []byte, off int, rs []DLRRReport, n int) bool {
+	if n <= 0 {
+		return true
+	}
+	o := off + 12*(n-1)
+	return specXRDLRRAt(buf, off, rs, n-1) && be32(buf, o) == rs[n-1].SSRC && be32(buf, o+4) == rs[n-1].LastRR && be32(buf, o+8) == rs[n-1].DLRR
+}
+
+func specXRBytesAt(buf []byte, off int, bs []byte, n int) bool {
+	if n <= 0 {
+		return true
+	}
+	return specXRBytesAt(buf, off, bs, n-1) && byteAt(buf, off+n-1) == bs[n-1]
+}
+
+// specXRBlockAt: buf[off:off+specXRBlockSize(b)] is the RFC 3611 encoding of b (header taken from b.XRHeader).
+func specXRBlockAt(buf []byte, off int, b ReportBlock) bool {
+	switch v := b.(type) {
+	case *LossRLEReportBlock: // section 4.1
+		return specXRHeaderAt(buf, off, v.XRHeader) && be32(buf, off+4) == v.SSRC && be16(buf, off+8) == v.BeginSeq &&
+			be16(buf, off+10) == v.EndSeq && specXRChunksAt(buf, off+12, v.Chunks, len(v.Chunks))
+	case *DuplicateRLEReportBlock: // section 4.2
+		return specXRHeaderAt(buf, off, v.XRHeader) && be32(buf, off+4) == v.SSRC && be16(buf, off+8) == v.BeginSeq &&
+			be16(buf, off+10) == v.EndSeq && specXRChunksAt(buf, off+12, v.Chunks, len(v.Chunks))
+	case *PacketReceiptTimesReportBlock: // section 4.3
+		return specXRHeaderAt(buf, off, v.XRHeader) && be32(buf, off+4) == v.SSRC && be16(buf, off+8) == v.BeginSeq &&
+			be16(buf, off+10) == v.EndSeq && specXRTimesAt(buf, off+12, v.ReceiptTime, len(v.ReceiptTime))
+	case *ReceiverReferenceTimeReportBlock: // section 4.4
+		return specXRHeaderAt(buf, off, v.XRHeader) && be64(buf, off+4) == v.NTPTimestamp
+	case *DLRRReportBlock: // section 4.5
+		return specXRHeaderAt(buf, off, v.XRHeader) && specXRDLRRAt(buf, off+4, v.Reports, len(v.Reports))
+	case *StatisticsSummaryReportBlock: // section 4.6
+		return specXRHeaderAt(buf, off, v.XRHeader) && be32(buf, off+4) == v.SSRC && be16(buf, off+8) == v.BeginSeq &&
+			be16(buf, off+10) == v.EndSeq && be32(buf, off+12) == v.LostPackets && be32(buf, off+16) == v.DupPackets &&
+			be32(buf, off+20) == v.MinJitter && be32(buf, off+24) == v.MaxJitter && be32(buf, off+28) == v.MeanJitter &&
+			be32(buf, off+32) == v.DevJitter && byteAt(buf, off+36) == v.MinTTLOrHL && byteAt(buf, off+37) == v.MaxTTLOrHL &&
+			byteAt(buf, off+38) == v.MeanTTLOrHL && byteAt(buf, off+39) == v.DevTTLOrHL
+	case *VoIPMetricsReportBlock: // section 4.7
+		return specXRHeaderAt(buf, off, v.XRHeader) && be32(buf, off+4) == v.SSRC && byteAt(buf, off+8) == v.LossRate &&
+			byteAt(buf, off+9) == v.DiscardRate && byteAt(buf, off+10) == v.BurstDensity && byteAt(buf, off+11) == v.GapDensity &&
+			be16(buf, off+12) == v.BurstDuration && be16(buf, off+14) == v.GapDuration && be16(buf, off+16) == v.RoundTripDelay &&
+			be16(buf, off+18) == v.EndSystemDelay && byteAt(buf, off+20) == v.SignalLevel && byteAt(buf, off+21) == v.NoiseLevel &&
+			byteAt(buf, off+22) == v.RERL && byteAt(buf, off+23) == v.Gmin && byteAt(buf, off+24) == v.RFactor &&
+			byteAt(buf, off+25) == v.ExtRFactor && byteAt(buf, off+26) == v.MOSLQ && byteAt(buf, off+27) == v.MOSCQ &&
+			byteAt(buf, off+28) == v.RXConfig && be16(buf, off+30) == v.JBNominal && be16(buf, off+32) == v.JBMaximum &&
+			be16(buf, off+34) == v.JBAbsMax
+	case *UnknownReportBlock: // opaque: header and content verbatim
+		return specXRHeaderAt(buf, off, v.XRHeader) && specXRBytesAt(buf, off+4, v.Bytes, len(v.Bytes))
+	default:
+		return false
+	}
+}
+
+// specXRBlocksAt: the first n report blocks are laid out back to back from buf[off:].
+func specXRBlocksAt(buf []byte, off int, bs []ReportBlock, n int) bool {
+	if n <= 0 {
+		return true
+	}
+	return specXRBlocksAt(buf, off, bs, n-1) && bs[n-1] != nil && specXRBlockAt(buf, off+specXRBlocksLen(bs, n-1), bs[n-1])
+}
+
+// specXRHeaderOf: the block header stored in a report block.
+func specXRHeaderOf(b ReportBlock) XRHeader {
+	switch v := b.(type) {
+	case *LossRLEReportBlock:
+		return v.XRHeader
+	case *DuplicateRLEReportBlock:
+		return v.XRHeader
+	case *PacketReceiptTimesReportBlock:
+		return v.XRHeader
+	case *ReceiverReferenceTimeReportBlock:
+		return v.XRHeader
+	case *DLRRReportBlock:
+		return v.XRHeader
+	case *StatisticsSummaryReportBlock:
+		return v.XRHeader
+	case *VoIPMetricsReportBlock:
+		return v.XRHeader
+	case *UnknownReportBlock:
+		return v.XRHeader
+	default:
+		return XRHeader{}
+	}
+}
+
+// specXRReadFits: a block of this kind can be read from exactly n octets (fixed part present, list part whole).
+func specXRReadFits(b ReportBlock, n int) bool {
+	switch b.(type) {
+	case *LossRLEReportBlock, *DuplicateRLEReportBlock:
+		return n >= 12 && (n-12)%2 == 0
+	case *PacketReceiptTimesReportBlock:
+		return n >= 12 && (n-12)%4 == 0
+	case *ReceiverReferenceTimeReportBlock:
+		return n >= 12
+	case *DLRRReportBlock:
+		return n >= 4 && (n-4)%12 == 0
+	case *StatisticsSummaryReportBlock:
+		return n >= 40
+	case *VoIPMetricsReportBlock:
+		return n >= 36
+	case *UnknownReportBlock:
+		return n >= 4
+	default:
+		return false
+	}
+}
+
+// specXRHeaderOK: the block header stored in b is the one RFC 3611 prescribes for b's content: registered block
+// type (an opaque block keeps its own), type-specific bits (thinning T in the low nibble; L, D, J flags and the
+// TTL/hop-limit kind in bits 7, 6, 5 and 4-3; zero otherwise), block length in 32-bit words minus one.
+func specXRHeaderOK(b ReportBlock) bool {
+	switch v := b.(type) {
+	case *LossRLEReportBlock:
+		return v.XRHeader.BlockType == 1 && v.XRHeader.TypeSpecific == TypeSpecificField(v.T&0x0F) && v.XRHeader.BlockLength == uint16(specXRBlockSize(b)/4-1)
+	case *DuplicateRLEReportBlock:
+		return v.XRHeader.BlockType == 2 && v.XRHeader.TypeSpecific == TypeSpecificField(v.T&0x0F) && v.XRHeader.BlockLength == uint16(specXRBlockSize(b)/4-1)
+	case *PacketReceiptTimesReportBlock:
+		return v.XRHeader.BlockType == 3 && v.XRHeader.TypeSpecific == TypeSpecificField(v.T&0x0F) && v.XRHeader.BlockLength == uint16(specXRBlockSize(b)/4-1)
+	case *ReceiverReferenceTimeReportBlock:
+		return v.XRHeader.BlockType == 4 && v.XRHeader.TypeSpecific == 0 && v.XRHeader.BlockLength == 2
+	case *DLRRReportBlock:
+		return v.XRHeader.BlockType == 5 && v.XRHeader.TypeSpecific == 0 && v.XRHeader.BlockLength == uint16(specXRBlockSize(b)/4-1)
+	case *StatisticsSummaryReportBlock:
+		return v.XRHeader.BlockType == 6 && v.XRHeader.BlockLength == 9 &&
+			v.XRHeader.TypeSpecific == specStatSummaryBits(v.LossReports, v.DuplicateReports, v.JitterReports, v.TTLorHopLimit)
+	case *VoIPMetricsReportBlock:
+		return v.XRHeader.BlockType == 7 && v.XRHeader.TypeSpecific == 0 && v.XRHeader.BlockLength == 8
+	case *UnknownReportBlock:
+		return v.XRHeader.BlockLength == uint16(specXRBlockSize(b)/4-1)
+	default:
+		return false
+	}
+}
+
+// specXRFramed: the block length field of b is its size in 32-bit words minus one (RFC 3611 section 3).
+func specXRFramed(b ReportBlock) bool {
+	return 4*(int(specXRHeaderOf(b).BlockLength)+1) == specXRBlockSize(b)
+}
+
+// specXRAllAligned: the first n blocks each occupy a whole number of 32-bit words.
+func specXRAllAligned(bs []ReportBlock, n int) bool {
+	if n <= 0 {
+		return true
+	}
+	return specXRAllAligned(bs, n-1) && specXRBlockSize(bs[n-1])%4 == 0
+}
+
+// specXRBlockEq: a and b are blocks of the same kind with equal semantic fields and equal lists (nil and empty
+// lists are not distinguished); withHeader also compares the stored block headers.
+func specXRBlockEq(a, b ReportBlock, withHeader bool) bool {
+	if withHeader && specXRHeaderOf(a) != specXRHeaderOf(b) {
+		return false
+	}
+	switch v := a.(type) {
+	case *LossRLEReportBlock:
+		w, ok := b.(*LossRLEReportBlock)
+		return ok && v.T == w.T && v.SSRC == w.SSRC && v.BeginSeq == w.BeginSeq && v.EndSeq == w.EndSeq && seqEq(v.Chunks, w.Chunks)
+	case *DuplicateRLEReportBlock:
+		w, ok := b.(*DuplicateRLEReportBlock)
+		return ok && v.T == w.T && v.SSRC == w.SSRC && v.BeginSeq == w.BeginSeq && v.EndSeq == w.EndSeq && seqEq(v.Chunks, w.Chunks)
+	case *PacketReceiptTimesReportBlock:
+		w, ok := b.(*PacketReceiptTimesReportBlock)
+		return ok && v.T == w.T && v.SSRC == w.SSRC && v.BeginSeq == w.BeginSeq && v.EndSeq == w.EndSeq && seqEq(v.ReceiptTime, w.ReceiptTime)
+	case *ReceiverReferenceTimeReportBlock:
+		w, ok := b.(*ReceiverReferenceTimeReportBlock)
+		return ok && v.NTPTimestamp == w.NTPTimestamp
+	case *DLRRReportBlock:
+		w, ok := b.(*DLRRReportBlock)
+		return ok && seqEq(v.Reports, w.Reports)
+	case *StatisticsSummaryReportBlock:
+		w, ok := b.(*StatisticsSummaryReportBlock)
+		if !ok {
+			return false
+		}
+		x, y := *v, *w
+		x.XRHeader, y.XRHeader = XRHeader{}, XRHeader{}
+		return x == y
+	case *VoIPMetricsReportBlock:
+		w, ok := b.(*VoIPMetricsReportBlock)
+		if !ok {
+			return false
+		}
+		x, y := *v, *w
+		x.XRHeader, y.XRHeader = XRHeader{}, XRHeader{}
+		return x == y
+	case *UnknownReportBlock:
+		w, ok := b.(*UnknownReportBlock)
+		return ok && v.XRHeader.BlockType == w.XRHeader.BlockType && v.XRHeader.TypeSpecific == w.XRHeader.TypeSpecific && seqEq(v.Bytes, w.Bytes)
+	default:
+		return false
+	}
+}
+
+func specXRBlocksEq(as, bs []ReportBlock, n int, withHeader bool) bool {
+	if n <= 0 {
+		return true
+	}
+	return specXRBlocksEq(as, bs, n-1, withHeader) && n <= len(as) && n <= len(bs) && as[n-1] != nil && bs[n-1] != nil && specXRBlockEq(as[n-1], bs[n-1], withHeader)
+}
+
+// specXRCanonicalTS: the type-specific bits the decoder keeps (thinning nibble, or the flags of a summary block)
+// were set by setupBlockHeader; a T field above 15 is not representable.
+func specXRRepresentable(bs []ReportBlock, n int) bool {
+	if n <= 0 {
+		return true
+	}
+	ok := true
+	switch v := bs[n-1].(type) {
+	case *LossRLEReportBlock:
+		ok = v.T < 16
+	case *DuplicateRLEReportBlock:
+		ok = v.T < 16
+	case *PacketReceiptTimesReportBlock:
+		ok = v.T < 16
+	case *StatisticsSummaryReportBlock:
+		ok = v.TTLorHopLimit < 4
+	case *UnknownReportBlock:
+		ok = v.XRHeader.BlockType == 0 || v.XRHeader.BlockType > 7
+	}
+	return ok && specXRRepresentable(bs, n-1)
+}
+
+// lemmaRoundTripXR (C15, C02): decode(encode(p)) has the same blocks, in order, each of the kind it was sent as.
+func lemmaRoundTripXR(p ExtendedReport) (q ExtendedReport, err, err2 error) {
+	b, err := p.Marshal()
+	if err != nil {
+		return q, err, nil
+	}
+	err2 = q.Unmarshal(b)
+	return q, nil, err2
+}
+
+// lemmaReencodeXR (C15, C09): encode(decode(raw)) decodes again to the same blocks; opaque blocks keep their type,
+// type-specific octet and content.
+func lemmaReencodeXR(raw []byte) (p, q ExtendedReport, err, err2, err3 error) {
+	if err = p.Unmarshal(raw); err != nil {
+		return p, q, err, nil, nil
+	}
+	out, err2 := p.Marshal()
+	if err2 != nil {
+		return p, q, nil, err2, nil
+	}
+	err3 = q.Unmarshal(out)
+	return p, q, nil, nil, err3
+}
+
+// specXRWalk: number of report blocks found by following the block length fields from buf[off:] to the end of
+// buf, or -1 if a block header or body is cut short (independent block walker, RFC 3611 section 3).
+func specXRWalk(buf []byte, off int) int {
+	n := 0
+	for off < len(buf) {
+		if off+4 > len(buf) {
+			return -1
+		}
+		off += 4 * (int(be16(buf, off+2)) + 1)
+		if off > len(buf) {
+			return -1
+		}
+		n++
+	}
+	return n
+}
+
+// lemmaXRFraming (C15, C05): what a receiver sees when it walks the encoding of p by block lengths.
+func lemmaXRFraming(p ExtendedReport) (out []byte, err error) {
+	return p.Marshal()
 }
